@@ -9,9 +9,12 @@ MANIFEST = {
             "driver performs exactly one iteration per top-level step. The loops inside the evaluator are not modelled; "
             "they are reached by the sweep (prefixes / mutations / malformed streams / cyclic hierarchies), where a run "
             "counts as hung when it prints `timeout` and still does so when re-run alone.",
-    "note": "Partial: evaluator-internal loops are covered by exploration only; wall-clock effects (a slow machine tripping "
+    "note": "C02_token_stream: parser.Read driven to end of stream (read_all, the function C03's correspondence runs against "
+            "the code) is total on every text with linear fuel, ends with end-of-stream after at most 3n+3 tokens and never "
+            "holds `read error`. Partial: evaluator-internal loops are covered by exploration only; wall-clock effects (a slow machine tripping "
             "the 500 ms timer) are outside any executable model — suspected hangs are re-run alone up to three times.",
-    "technique": "Coq proof (potential function on the lexer, loop bound on the driver model); correspondence by vm_compute; "
+    "technique": "Coq proof (potential function on the lexer, lifted to the whole parser.Read stream by induction; loop bound "
+                 "on the driver model); correspondence by vm_compute; "
                  "black-box sweep with idle re-runs for the unmodelled evaluator",
 }
 REQUIRES = ["Model/Driver.v", "Model/Parser.v"]
